@@ -437,6 +437,14 @@ type lenFact struct {
 // factsFromCond derives length facts from cond being true (pol) or false (!pol).
 func (g *guardEngine) factsFromCond(cond ssa.Value, pol bool) []lenFact {
 	switch c := cond.(type) {
+	case *ssa.Phi:
+		// a || b / a && b computed as a value: when the constant edges all carry the other
+		// outcome, the value came through the one remaining edge, so that operand has the
+		// outcome and everything known on entry to its block holds
+		if e, pred := soleLiveEdge(c, pol); e != nil {
+			return append(g.factsFromCond(e, pol), g.factsAt(pred)...)
+		}
+		return nil
 	case *ssa.UnOp:
 		if c.Op == token.NOT {
 			return g.factsFromCond(c.X, !pol)
@@ -795,6 +803,13 @@ func (g *guardEngine) dischargeBasic(s guardSite) string {
 // discharge returns "" when undecided, else the argument.
 func (g *guardEngine) discharge(s guardSite) string {
 	x := s.x
+	if dbgGuard {
+		b := s.ins.Block()
+		fmt.Printf("DBG site %s idx=%v facts=%d early=%d block=%d idom=%v preds=%d fn=%s\n", s.desc, s.idx, len(g.factsAt(b)), len(g.earlyExitFacts(b)), b.Index, b.Idom(), len(b.Preds), s.ins.Parent())
+		if id := b.Idom(); id != nil {
+			fmt.Printf("DBG   idom last=%v succs=%v\n", id.Instrs[len(id.Instrs)-1], id.Succs)
+		}
+	}
 	// look through re-slicing of the same value for facts about the original? no: facts are per value
 	if s.idx == nil {
 		if s.needLen <= 0 {
@@ -917,6 +932,9 @@ func (g *guardEngine) discharge(s guardSite) string {
 		}
 	}
 	for _, f := range append(g.factsAt(s.ins.Block()), g.earlyExitFacts(s.ins.Block())...) {
+		if dbgGuard {
+			fmt.Printf("DBG fact x=%v same=%v gtIdx=%v geIdx=%v min=%d | site x=%v key=%q idx=%v\n", f.x, f.x != nil && g.same(f.x, x), f.gtIdx, f.geIdx, f.min, x, g.valKey(x), s.idx)
+		}
 		if f.x == nil || !g.same(f.x, x) {
 			continue
 		}
@@ -1521,7 +1539,17 @@ func (g *guardEngine) intMin(n ssa.Value, b *ssa.BasicBlock) int64 {
 // a signed value is known to be non-negative).
 func (g *guardEngine) intMinFrom(n ssa.Value, b *ssa.BasicBlock, floor int64) int64 {
 	min := floor
-	consider := func(cond ssa.Value, pol bool) {
+	var consider func(cond ssa.Value, pol bool)
+	consider = func(cond ssa.Value, pol bool) {
+		if ph, isPhi := cond.(*ssa.Phi); isPhi {
+			if e, pred := soleLiveEdge(ph, pol); e != nil {
+				consider(e, pol)
+				if m := g.intMinFrom(n, pred, min); m > min {
+					min = m
+				}
+			}
+			return
+		}
 		cmp, ok := cond.(*ssa.BinOp)
 		if !ok {
 			return
@@ -2002,4 +2030,26 @@ func signUnknownCallResult(v ssa.Value) bool {
 	}
 	_, isBuiltin := call.Call.Value.(*ssa.Builtin)
 	return !isBuiltin
+}
+
+var dbgGuard = false
+
+// soleLiveEdge: for a boolean phi whose constant edges all differ from pol and which has
+// exactly one non-constant edge, that edge and the block it comes from.
+func soleLiveEdge(ph *ssa.Phi, pol bool) (ssa.Value, *ssa.BasicBlock) {
+	var live ssa.Value
+	var pred *ssa.BasicBlock
+	for i, e := range ph.Edges {
+		if k, ok := e.(*ssa.Const); ok && k.Value != nil {
+			if (k.Value.String() == "true") == pol {
+				return nil, nil
+			}
+			continue
+		}
+		if live != nil {
+			return nil, nil
+		}
+		live, pred = e, ph.Block().Preds[i]
+	}
+	return live, pred
 }
